@@ -605,6 +605,16 @@ def _canonical_comparisons(tree: ast.Module) -> None:
                 and not any(isinstance(x, (ast.Call, ast.NamedExpr)) for side in (n.left, n.comparators[0]) for x in ast.walk(side)):
             n.left, n.comparators[0] = n.comparators[0], n.left
             n.ops = [mirror[type(n.ops[0])]()]
+    # a call compared with a bare name / constant: the call comes first (`np.abs(d) < atol`, not `atol > np.abs(d)`); the bare side has
+    # no effects, so the order of evaluation does not matter
+    def bare(e):
+        return isinstance(e, (ast.Name, ast.Constant)) or (isinstance(e, ast.UnaryOp) and isinstance(e.operand, (ast.Name, ast.Constant)))
+    has_call = lambda e: any(isinstance(x, ast.Call) for x in ast.walk(e))
+    for n in ast.walk(tree):
+        if isinstance(n, ast.Compare) and len(n.ops) == 1 and type(n.ops[0]) in mirror and bare(n.left) and has_call(n.comparators[0]) \
+                and not any(isinstance(x, ast.NamedExpr) for x in ast.walk(n.comparators[0])):
+            n.left, n.comparators[0] = n.comparators[0], n.left
+            n.ops = [mirror[type(n.ops[0])]()]
     for n in ast.walk(tree):
         if isinstance(n, ast.Compare) and len(n.ops) == 1 and isinstance(n.ops[0], (ast.Eq, ast.NotEq, ast.Is, ast.IsNot)) \
                 and sentinel(n.left) and not sentinel(n.comparators[0]):
